@@ -477,3 +477,46 @@ def const_eval(t, facts=None, bits=64):
         if op == "Mul":
             return (a * b_) & mask
     return None
+
+
+def elem_src(t):
+    """Like elem_of, but follows `zip` by the projection path: for the element of `a.iter().zip(b.iter().zip(c.iter()))` the term `elem.1.0`
+    resolves to collection b.  Returns (collection, adapters, remaining path, next call term) or None."""
+    path = []
+    cur = t
+    while isinstance(cur, tuple) and cur:
+        if cur[0] == "field" and isinstance(cur[1], tuple) and cur[1][0] == "downcast" and cur[1][2] == "Some":
+            nxt = cur[1][1]
+            if nxt[0] in ("ref", "deref"):
+                nxt = nxt[1]
+            if not is_call(nxt, "Iterator::next"):
+                return None
+            rest = list(reversed(path))
+            it = nxt[2][0]
+            adapters = []
+            for _ in range(20):
+                it = peel(it, transparent=["Deref::deref", "DerefMut::deref_mut"])
+                if is_call(it, "Iterator::zip") and len(it[2]) == 2 and rest and str(rest[0]) in ("0", "1"):
+                    adapters.append("zip")
+                    it = it[2][int(rest.pop(0))]
+                    continue
+                if is_call(it, "Iterator::enumerate") and rest and str(rest[0]) == "1":
+                    adapters.append("enumerate")
+                    rest.pop(0)
+                    it = it[2][0]
+                    continue
+                if is_call(it, ["Iterator::cloned", "Iterator::copied", "Iterator::by_ref", "Iterator::peekable"]) or is_call(it, ITER_SOURCES):
+                    adapters.append(strip_generics(it[1]).split("::")[-1])
+                    it = it[2][0]
+                    continue
+                break
+            return (it, adapters, rest, nxt)
+        if cur[0] == "field":
+            path.append(cur[2])
+            cur = cur[1]
+            continue
+        if cur[0] in ("deref", "ref"):
+            cur = cur[1]
+            continue
+        return None
+    return None
